@@ -222,6 +222,16 @@ def run(chk, ctx) -> None:
             for t in tg:
                 if isinstance(t, ast.Attribute) and isinstance(t.value, ast.Name) and (t.value.id == 'cls' or t.value.id in ctx.prog.classes):
                     dyn.append((mod, n, 'assignment to a class attribute'))
+    # ... including from inside a class body: a table is what its assignment says (no `table.setdefault(...)`, `update`, `del` after it)
+    for mod in ('hands', 'lookups'):
+        mi = ctx.prog.module(mod)
+        for c in ast.walk(mi.tree):
+            if isinstance(c, ast.ClassDef):
+                for st in c.body:
+                    if isinstance(st, ast.Expr) and not isinstance(st.value, ast.Constant):
+                        dyn.append((mod, st, f'statement in the body of {c.name}: {ast.unparse(st)[:50]}'))
+                    elif isinstance(st, (ast.Delete, ast.AugAssign, ast.For, ast.While, ast.If, ast.With, ast.Try)):
+                        dyn.append((mod, st, f'{type(st).__name__} statement in the body of {c.name}'))
     chk.ob('C04.hand_classes', 'hands/lookups:static_tables', not dyn, f'pokerkit/{dyn[0][0]}.py:{dyn[0][1].lineno}' if dyn else 'pokerkit/hands.py',
            'the attributes of a hand class (lookup, low, counts) are the ones its class bodies declare: no hook, metaclass or assignment rewrites them',
            got=[f'{m}.py:{n.lineno}: {w}' for m, n, w in dyn[:3]])
